@@ -39,7 +39,7 @@ theorem inv_genesis {s : State} (hg : C05.Genesis s) (hh : 0 ≤ s.height) : Inv
   obtain ⟨hp, hf, hq, _, _, hb, _⟩ := hg
   have gp : ∀ id, getPool s id = none := fun id => by unfold getPool; rw [hp]; rfl
   have gf : ∀ a id, getFarmer s a id = none := fun a id => by unfold getFarmer; rw [hf]; rfl
-  refine ⟨⟨hh, ?_, ?_, ⟨?_, ?_, ?_⟩, ?_, ?_, ?_⟩, ⟨?_, ?_⟩, ?_⟩
+  refine ⟨⟨hh, ?_, ?_, ⟨?_, ?_, ?_⟩, ?_, ?_, ?_, ?_⟩, ⟨?_, ?_⟩, ?_⟩
   · intro id p h; rw [gp] at h; cases h
   · intro id p h; rw [gp] at h; cases h
   · intro h id hm; rw [hq] at hm; cases hm
@@ -48,6 +48,7 @@ theorem inv_genesis {s : State} (hg : C05.Genesis s) (hh : 0 ≤ s.height) : Inv
   · intro id p h; rw [gp] at h; cases h
   · intro a id f p h; rw [gf] at h; cases h
   · intro a id f h; rw [gf] at h; cases h
+  · intro id p h; rw [gp] at h; cases h
   · intro id
     unfold C05.stakedSum C05.lockedOf
     rw [hf, gp]; rfl
